@@ -104,7 +104,7 @@ prop("C14", "proof",
      "(attribute count other than one); gating (blind_sign returns only when verify_proof returned true; a false proof is a panic = refusal); cl_update_complete (re-issuing after a revealed attribute changed verifies on the updated vector; verify_two_vectors_reduces: acceptance on the old vector too would make the two products of powers congruent); consumes: every generator only "
      "takes draws from the front of the log. PARTIAL: rejection of mismatching / edited proofs is decided by correspondence (proofs equal integer for integer with logged draws; "
      "decisions equal on every mutated instance) + sweep over ALL non-empty U for n <= 3 (thorough 5), with and without trusted commitment, update_signature, field edits. "
-     "Known finding F9 (unused randomness leaves) reported, not hidden.",
+     "Known findings F9 (unused randomness leaves) and F15 (sub-proof pairs not tied to C; zkpok_subproofs_untied) reported, not hidden; F15a repaired by 56a5ca8 (zkpok_loop_ties_range_proofs).",
      "DESIGN.md §10 C14", NOTE_CL)
 prop("C15", "proof",
      "Proved: spok_complete -- COMPLETENESS of the whole proof of knowledge: for every modulus, every number of attributes, every strictly increasing list U of hidden positions, "
@@ -112,7 +112,7 @@ prop("C15", "proof",
      "(nine-response protocol nisp5_complete with its five congruences; per-attribute opening proofs nisp2sec_complete_u; all range proofs boudot_complete; premises: commitment "
      "key over the issuer modulus, invertible bases -- each checked against the implementation's run by the harness); an accepted proof has its range proof on e made for the "
      "sigma protocol's commitment Ce and passes the five-equation check. PARTIAL: rejection of mismatching statements / edited fields is decided by correspondence "
-     "(integer for integer, logged draws) + sweep over ALL U for n <= 3 (thorough 5). Known finding F9 (unused randomness leaves) reported.", "DESIGN.md §10 C15", NOTE_CL)
+     "(integer for integer, logged draws) + sweep over ALL U for n <= 3 (thorough 5). Known findings F9 (unused randomness leaves) and F15 (per-attribute sub-proof pairs not tied to the signature; spok_subproofs_untied) reported; F15a (range proof not tied to its opening proof) repaired by 56a5ca8 (spok_loop_ties_range_proofs).", "DESIGN.md §10 C15", NOTE_CL)
 prop("C16", "proof",
      "Proved: boudot_prove_below_fails / boudot_prove_above_fails -- for a value outside [rmin, rmax] the honest prover returns no proof, whatever the modulus, bases, randomness and draws (tolerance < 2^T); boudot_complete -- every proof the honest prover returns verifies, for every modulus, every pair of invertible bases, every interval, every value and every "
      "sequence of draws incl. negative randomness (all ten algorithms: same-secret, square, larger-interval, tolerance, square-decomposition; exponent arithmetic with negative "
